@@ -43,7 +43,7 @@ static std::string sha_forms(const std::string& t, const Bytes& m) {
         f.push_back(std::make_pair("ptrvec", hx(hmac_hash::sha1(m.data(), m.size()))));
         f.push_back(std::make_pair("vec", hx(hmac_hash::sha1(m))));
         f.push_back(std::make_pair("vecchar", hx(hmac_hash::sha1(chars_of(m)))));
-        f.push_back(std::make_pair("strhex", hmac_hash::sha1(s).empty() ? "-" : hmac_hash::sha1(s)));
+        f.push_back(std::make_pair("strhex", hmac_hash::sha1(s)));
     } else if (t == "sha256") {
         uint8_t d[32]; hmac_hash::sha256(m.data(), m.size(), d); f.push_back(std::make_pair("raw", hx(d, 32)));
         f.push_back(std::make_pair("ptrvec", hx(hmac_hash::sha256(m.data(), m.size()))));
@@ -65,8 +65,56 @@ static std::string sha_forms(const std::string& t, const Bytes& m) {
     return agree(f);
 }
 
+static std::string hmac_forms(TypeHash ty, const Bytes& k, const Bytes& m) {
+    Forms f;
+    f.push_back(std::make_pair("ptr", hx(get_hmac(k.data(), k.size(), m.data(), m.size(), ty))));
+    f.push_back(std::make_pair("vec", hx(get_hmac(k, m, ty))));
+    f.push_back(std::make_pair("vecchar", hx(get_hmac(chars_of(k), chars_of(m), ty))));
+    return agree(f);
+}
+static std::string hmacstr_forms(TypeHash ty, const Bytes& k, const Bytes& m, bool ih, bool iu) {
+    Forms f; std::string ms = str_of(m);
+    f.push_back(std::make_pair("veckey", hxs(get_hmac(k, ms, ty, ih, iu))));
+    secure_buffer<uint8_t> sk(k.size()); if (!k.empty()) memcpy(sk.data(), k.data(), k.size());
+    f.push_back(std::make_pair("securekey", hxs(get_hmac(sk, ms, ty, ih, iu))));
+    f.push_back(std::make_pair("strkey", hxs(get_hmac(str_of(k), ms, ty, ih, iu))));
+    if (ih && !iu) {   // defaults: is_hex = true, is_upper = false
+        f.push_back(std::make_pair("veckey-default", hxs(get_hmac(k, ms, ty))));
+        f.push_back(std::make_pair("securekey-default", hxs(get_hmac(sk, ms, ty))));
+    }
+    return agree(f);
+}
+static std::string hmachist(TypeHash ty, const std::vector<std::string>& ops) {
+    HmacContext* c = new HmacContext(ty);
+    std::string out; bool first = true;
+    for (size_t i = 0; i < ops.size(); ++i) {
+        const std::string& o = ops[i];
+        if (o == "F") { uint8_t d[64]; memset(d, 0xEE, 64); size_t ds = ty == TypeHash::SHA1 ? 20 : ty == TypeHash::SHA256 ? 32 : 64;
+                        c->final(d, ds); if (!first) out += ","; out += hx(d, ds); first = false; }
+        else if (o[0] == 'I') { Bytes k = bx(o.substr(2)); c->init(k.data(), k.size()); }
+        else if (o[0] == 'U') { Bytes m = bx(o.substr(2)); c->update(m.data(), m.size()); }
+        else throw std::logic_error("hmachist op");
+    }
+    delete c;
+    return out;
+}
+
 static std::string run(const std::vector<std::string>& a) {
     const std::string& op = a[0];
+    if (op == "shabig") {   // shabig <t> <nbytes> <byte>: hash nbytes copies of one byte value, streamed in 1 MiB updates
+        unsigned long long n = strtoull(a[2].c_str(), 0, 10); Bytes chunk(1 << 20, (uint8_t)atoi(a[3].c_str()));
+        if (a[1] == "sha1") { hmac_hash::SHA1 c; c.init(); for (unsigned long long i = 0; i < n; i += chunk.size()) c.update(chunk.data(), (size_t)std::min<unsigned long long>(chunk.size(), n - i)); uint8_t d[20]; c.finish(d); return hx(d, 20); }
+        if (a[1] == "sha256") { hmac_hash::SHA256 c; c.init(); for (unsigned long long i = 0; i < n; i += chunk.size()) c.update(chunk.data(), (size_t)std::min<unsigned long long>(chunk.size(), n - i)); uint8_t d[32]; c.finish(d); return hx(d, 32); }
+        hmac_hash::SHA512 c; c.init(); for (unsigned long long i = 0; i < n; i += chunk.size()) c.update(chunk.data(), (size_t)std::min<unsigned long long>(chunk.size(), n - i)); uint8_t d[64]; c.finish(d); return hx(d, 64);
+    }
+    if (op == "hmac") return hmac_forms(type_of(a[1]), bx(a[2]), bx(a[3]));
+    if (op == "hmacstr") return hmacstr_forms(type_of(a[1]), bx(a[2]), bx(a[3]), a[4] == "1", a[5] == "1");
+    if (op == "tohex") return hxs(to_hex(str_of(bx(a[2])), a[1] == "1"));
+    if (op == "hmacovf") { Bytes k = bx(a[2]); uint8_t dummy = 0;
+        return hx(get_hmac(k.data(), k.size(), &dummy, SIZE_MAX, type_of(a[1]))); }
+    if (op == "hmachist") return hmachist(type_of(a[1]), std::vector<std::string>(a.begin() + 2, a.end()));
+    if (op == "hexstr") { Bytes m = bx(a[2]); std::string s = str_of(m);
+        return a[1] == "sha1" ? hmac_hash::sha1(s) : a[1] == "sha256" ? hmac_hash::sha256(s) : hmac_hash::sha512(s); }
     if (op == "cteq") {
         Bytes x = bx(a[1]), y = bx(a[2]);
         std::string sx = str_of(x), sy = str_of(y);
